@@ -151,6 +151,13 @@ def run(v):
             for kk in sorted(pts):
                 jobs.append({"fn": "single", "args": [S[i], S[j], kk, False, "line"]})
                 meta.append((i, j, False, kk, "line"))
+    # keep the thorough tier inside its time budget: a uniform sample of the window points when there are too many
+    cap_fill = 2500 if quick else 45000
+    if len(jobs) - n_before > cap_fill:
+        keep = set(rng.sample(range(n_before, len(jobs)), cap_fill))
+        jobs = jobs[:n_before] + [jb for k, jb in enumerate(jobs) if k >= n_before and k in keep]
+        meta = meta[:n_before] + [mt for k, mt in enumerate(meta) if k >= n_before and k in keep]
+        v.cov["cache_fill_window_points_sampled_from"] = len(keep)
     v.cov["cache_fill_window_replays"] = len(jobs) - n_before
     # ---- replay 2: systematic - B runs to completion at EVERY line of A (dense), all ordered pairs, cold and warm
     djobs, dmeta = [], []
